@@ -6,15 +6,19 @@ from . import common as C, nnm
 ANCHORS = nnm.ANCHORS
 
 
-def oracle(rng, cfg, xs):
+def oracle(rng, cfg, xs, long=False):
     """prefix / tail / truncation clauses of the property on the implementation."""
     bad = []
     n = len(xs)
     if n < 2:
         return bad, 0
     k = rng.randint(1, n - 1)
-    tail = nnm.gen_xs(rng, cfg, n=rng.randint(1, max(1, (cfg["N"] or 14) - k)), maxlen=14)
-    top = (cfg["N"] or 14)
+    if long:     # tails of the same magnitude as the sample, of any length the population allows
+        top = cfg["N"] or (n + 400)
+        tail = nnm.long_xs(rng, cfg, rng.randint(1, max(1, min(top - k, n + 400 - k))), like=xs)
+    else:
+        tail = nnm.gen_xs(rng, cfg, n=rng.randint(1, max(1, (cfg["N"] or 14) - k)), maxlen=14)
+        top = (cfg["N"] or 14)
     ys = (xs[:k] + tail)[:top]
     if len(ys) <= k:
         return bad, 0
@@ -51,6 +55,7 @@ def run(ctx, res):
                                           "signature": f"C05:{c['cfg']['kind']}:{what}"})
     n_or = ctx.n(900, 12000)
     kinds = nnm.KINDS
+    nlong = 0
     for i in range(n_or):
         cfg = nnm.gen_cfg(ctx.rng, kind=kinds[i % len(kinds)])
         if cfg["kind"] in ("alpha_shrink", "bet_agrapa") and ctx.rng.random() < 0.7:
@@ -60,7 +65,14 @@ def run(ctx, res):
         xs = nnm.gen_xs(ctx.rng, cfg, maxlen=14)
         if i % 4 == 3:       # non-dyadic values, longer samples (oracle only: no comparison with the exact model)
             cfg, xs = nnm.gen_nondyadic(ctx.rng)
-        bad, runs = oracle(ctx.rng, cfg, xs)
+        lng = False
+        if i % 6 == 5:       # long samples (65..3000 draws), integer-typed u, other units (oracle only)
+            cfg, xs = nnm.gen_long(ctx.rng, kind=kinds[(i // 6) % len(kinds)])
+            if cfg["kind"] == "alpha_shrink" and ctx.rng.random() < 0.7:
+                cfg["p"]["f"] = ctx.rng.choice([C.frac(0.5), C.frac(2), C.frac(0.125)])
+            lng = True
+            nlong += 1
+        bad, runs = oracle(ctx.rng, cfg, xs, long=lng)
         res.oracle_runs += runs
         res.evaluations += 1
         if len(set(xs)) > 1:
@@ -69,7 +81,8 @@ def run(ctx, res):
             res.oracle_violations.append({"what": f"{cfg['kind']}: {what}", "input": {"cfg": C.jsonable(cfg)},
                                           "observed": C.jsonable(obs), "signature": f"C05:{cfg['kind']}:{what}"})
     res.rule = ("correspondence: as C11. Oracle: random (cfg, xs, cut k, replacement tail of any length) triples; histories of xs, "
-                "xs[:k]+tail and xs[:k] compared entry by entry, estim/bet outputs compared up to index k; non-trivial = non-constant sample")
+                "xs[:k]+tail and xs[:k] compared entry by entry, estim/bet outputs compared up to index k; one triple in six on long samples "
+                "(65..3000 draws, cut points beyond 64 and 1024, tails long enough to overflow the product); non-trivial = non-constant sample")
     res.samples = [nnm.case_json(c) for c in cases[:3]]
-    res.stats = nnm.branch_stats(cases)
+    res.stats = dict(nnm.branch_stats(cases), **{"oracle triples on long samples (65..3000 draws)": nlong})
     res.assumptions = ["np.sqrt modelled by an arbitrary function (theorems need no property of it)"]
